@@ -173,7 +173,18 @@ def first_difference(rel, a, b, repl_b):
     _, ca, ta, da = la
     _, cb, tb, db = lb
     if ca != cb:
+        if sorted(ca) == sorted(cb):
+            return "<column-order>", "%s vs %s" % (ca, cb)
         return "<columns>", "%s vs %s" % (ca, cb)
+    n = len(da["<index>"])
+    if n == len(db["<index>"]) and n > 1 and da["<index>"] == db["<index>"]:
+        # same rows in another order?  (a root-cause class of its own: an unordered collection was flattened)
+        rows_a = [json.dumps([da[c][i] for c in ca], sort_keys=True, default=str) for i in range(n)]
+        rows_b = [json.dumps([db[c][i] for c in ca], sort_keys=True, default=str) for i in range(n)]
+        if rows_a != rows_b and sorted(rows_a) == sorted(rows_b):
+            i = next(i for i in range(n) if rows_a[i] != rows_b[i])
+            return "<row-order>", "same %d rows, different order from row %d: %s vs %s" % (
+                n, i, _short(rows_a[i], 120), _short(rows_b[i], 120))
     for c in ca + ["<index>"]:
         if da[c] != db[c]:
             xa, xb = da[c], db[c]
@@ -351,7 +362,9 @@ def run_case(case, col=None, only=None):
             if isinstance(hs, str):
                 hs = seeds.get(hs, 12345)
             inp = os.path.join(base, "in_t", "proj") if step["proj"] == "target" else os.path.join(base, "in_p", "pred")
-            args = ["run", "-l", lang, "-f", "-w", ws, "--nomock", "--default-settings", sd]
+            # the predecessor is another project with its own language (a python project by default)
+            run_lang = lang if step["proj"] == "target" else case.get("pred_lang", "python")
+            args = ["run", "-l", run_lang, "-f", "-w", ws, "--nomock", "--default-settings", sd]
             if case.get("enable_p2"):
                 args.append("--enable-p2")
             args.append(inp)
@@ -570,7 +583,7 @@ def replay(path):
 def plan(tier, seed, t0):
     ncpu = common.NCPU
     if tier == "quick":
-        n_gen, n_corpus, per = 22, 10, 1
+        n_gen, n_corpus, per = 16, 8, 1
         extra = []
         deadline = None
     else:
